@@ -1,9 +1,13 @@
-(* C16 — generic theorem: in every history of construct / copy / assign / use / destroy over any number of objects of a
-   class, the result of a `use` of a method that the description classifies as self-contained (method_sc_b) is a function of
+(* C16 — generic theorem: in every history of construct / copy / assign / use / destroy / re-parameterise over any number of objects
+   of a class, the result of a `use` of a method that the description classifies as self-contained (method_sc_b) is a function of
    the construction parameters of the object's lineage and of the operands.
-   The semantics of the class is ABSTRACT: any constructor function, any method bodies and any junk in unmentioned
-   members, constrained only by "the code respects the generated description" (hypotheses run_footprint, own_footprint,
-   default_members) — that is what harness/c16_objmodel.py extracts from the source and the history harness validates. *)
+   The semantics of the class is ABSTRACT: any constructor (it may read AND write the function-local statics / globals of the
+   process), any method bodies and any junk in unmentioned members, constrained only by "the code respects the generated
+   description" (hypotheses run_footprint, own_footprint, ctor_footprint) — that is what harness/c16_objmodel.py extracts from the
+   source and the history harness validates.  What the earlier versions ASSUMED about the constructors ("members outside cd_params do
+   not depend on the parameters", "members the copy constructor default-initialises have their default value") is now part of the
+   description (cd_init) and DECIDED on it (init_consistent_b, copy_ok_b): the value of a member after construction is, by
+   definition of `init`, the parameter-derived value only for the members the description marks InitParam. *)
 From Coq Require Import String List Bool Arith.
 From C16 Require Import ObjModel.
 Import ListNotations.
@@ -14,14 +18,26 @@ Section SelfContained.
 
   Definition mems := string -> val.
 
-  Variable init : param -> mems.                         (* members after construction from the parameters *)
+  Variable pinit : param -> mems -> mems.                (* parameter-derived members after construction; 2nd argument: the statics *)
+  Variable cinit : mems.                                 (* members every constructor initialises with the same constant *)
   Variable dflt : mems.                                  (* value of default-initialised members *)
+  Variable ctor_stat : param -> mems -> mems.            (* the statics after a construction (write-once statics get initialised) *)
   Variable junk : nat -> string -> mems -> mems -> val.  (* anything else a copy / assignment leaves in a member *)
   Variable run : string -> mems -> mems -> arg -> res.   (* result of method n on (own members, statics, operands) *)
   Variable eff_own : string -> mems -> mems -> arg -> mems.   (* own members after the call *)
   Variable eff_stat : string -> mems -> mems -> arg -> mems.  (* statics after the call *)
 
-  Record state := { objs : nat -> option (param * mems); stat : mems }.
+  (* members after construction from parameters p when the statics of the process are st: read off the description *)
+  Definition init (p : param) (st : mems) : mems :=
+    fun x => match lookup x (cd_init d) with
+             | Some InitParam => pinit p st x
+             | Some InitConst => cinit x
+             | Some InitDefault | None => dflt x
+             end.
+
+  (* the lineage of an object: its construction parameters and (ghost) the statics of the process when it was constructed *)
+  Definition lin := (param * mems)%type.
+  Record state := { objs : nat -> option (lin * mems); stat : mems }.
 
   Inductive event :=
   | Construct (o : nat) (p : param)
@@ -32,7 +48,7 @@ Section SelfContained.
   | Mutate (o : nat) (n : string) (p : param)   (* re-parameterise o in place through the mutator n (setPrimes, read(istream&)) *)
   | Env (st : mems).               (* anything else in the process: other classes, other libraries touch the statics *)
 
-  Definition upd (f : nat -> option (param * mems)) (o : nat) (v : option (param * mems)) :=
+  Definition upd (f : nat -> option (lin * mems)) (o : nat) (v : option (lin * mems)) :=
     fun o' => if Nat.eqb o' o then v else f o'.
 
   Definition copy_mem (mp : list (string * src)) (o' : nat) (s : mems) : mems :=
@@ -51,23 +67,24 @@ Section SelfContained.
 
   Definition step (σ : state) (e : event) : state * option res :=
     match e with
-    | Construct o p => ({| objs := upd (objs σ) o (Some (p, init p)); stat := stat σ |}, None)
+    | Construct o p =>
+        ({| objs := upd (objs σ) o (Some ((p, stat σ), init p (stat σ))); stat := ctor_stat p (stat σ) |}, None)
     | Copy o' o =>
         match objs σ o, cd_copy d with
-        | Some (p, s), Some mp => ({| objs := upd (objs σ) o' (Some (p, copy_mem mp o' s)); stat := stat σ |}, None)
+        | Some (l, s), Some mp => ({| objs := upd (objs σ) o' (Some (l, copy_mem mp o' s)); stat := stat σ |}, None)
         | _, _ => (σ, None)
         end
     | Assign o' o =>
         match objs σ o', objs σ o, cd_assign d with
-        | Some (_, old), Some (p, s), Some mp =>
-            ({| objs := upd (objs σ) o' (Some (p, assign_mem mp o' old s)); stat := stat σ |}, None)
+        | Some (_, old), Some (l, s), Some mp =>
+            ({| objs := upd (objs σ) o' (Some (l, assign_mem mp o' old s)); stat := stat σ |}, None)
         | _, _, _ => (σ, None)
         end
     | Use o n a =>
         match objs σ o, find_method d n with
-        | Some (p, s), Some md =>
+        | Some (l, s), Some md =>
             if m_const md
-            then ({| objs := upd (objs σ) o (Some (p, eff_own n s (stat σ) a)); stat := eff_stat n s (stat σ) a |},
+            then ({| objs := upd (objs σ) o (Some (l, eff_own n s (stat σ) a)); stat := eff_stat n s (stat σ) a |},
                   Some (run n s (stat σ) a))
             else (σ, None)
         | _, _ => (σ, None)
@@ -77,7 +94,8 @@ Section SelfContained.
         match objs σ o, find_method d n with
         | Some (_, s), Some md =>
             if m_mutator md      (* the members it writes get the values of the new parameters, the others keep theirs *)
-            then ({| objs := upd (objs σ) o (Some (p', fun x => if mem x (m_writes md) then init p' x else s x)); stat := stat σ |}, None)
+            then ({| objs := upd (objs σ) o (Some ((p', stat σ), fun x => if mem x (m_writes md) then init p' (stat σ) x else s x));
+                     stat := stat σ |}, None)
             else (σ, None)
         | _, _ => (σ, None)
         end
@@ -104,13 +122,13 @@ Section SelfContained.
       try reflexivity;
       assert (o <> o1) as Hn by (intro; subst; apply H; reflexivity).
     - cbn. apply upd_other; exact Hn.
-    - destruct (objs σ o2) as [[p s]|]; [|reflexivity]. destruct (cd_copy d); [|reflexivity]. cbn. apply upd_other; exact Hn.
-    - destruct (objs σ o1) as [[p' old]|]; [|reflexivity]. destruct (objs σ o2) as [[p s]|]; [|reflexivity].
+    - destruct (objs σ o2) as [[l s]|]; [|reflexivity]. destruct (cd_copy d); [|reflexivity]. cbn. apply upd_other; exact Hn.
+    - destruct (objs σ o1) as [[l' old]|]; [|reflexivity]. destruct (objs σ o2) as [[l s]|]; [|reflexivity].
       destruct (cd_assign d); [|reflexivity]. cbn. apply upd_other; exact Hn.
-    - destruct (objs σ o1) as [[p s]|]; [|reflexivity]. destruct (find_method d n); [|reflexivity].
+    - destruct (objs σ o1) as [[l s]|]; [|reflexivity]. destruct (find_method d n); [|reflexivity].
       destruct (m_const _); [|reflexivity]. cbn. apply upd_other; exact Hn.
     - cbn. apply upd_other; exact Hn.
-    - destruct (objs σ o1) as [[p0 s]|]; [|reflexivity]. destruct (find_method d n); [|reflexivity].
+    - destruct (objs σ o1) as [[l0 s]|]; [|reflexivity]. destruct (find_method d n); [|reflexivity].
       destruct (m_mutator _); [|reflexivity]. cbn. apply upd_other; exact Hn.
   Qed.
 
@@ -122,15 +140,46 @@ Section SelfContained.
       run (m_name md) s st a = run (m_name md) s' st' a.
   Hypothesis own_footprint : forall md, In md (cd_methods d) -> m_const md = true ->
     forall s st a x, existsb (writes_member_b x) (m_effects md) = false -> eff_own (m_name md) s st a x = s x.
-  Hypothesis default_members : forall p x mp,
-    cd_copy d = Some mp -> lookup x mp = Some SrcDefault -> init p x = dflt x.
-  (* decided per class (mutator_offenders d = []): every re-parameterising member is accepted by mutator_ok_b *)
+  (* a constructor whose description lists no static / global (other than documented excluded ones) does not depend on them *)
+  Hypothesis ctor_footprint : ctor_pure_b d = true ->
+    forall p st st' x, (forall g, In (RExcluded g) (cd_ctor_effects d) -> st g = st' g) -> pinit p st x = pinit p st' x.
+  (* DECIDED per class on the generated description (gen/Decide.v): *)
   Hypothesis mutators_ok : forall md, In md (cd_methods d) -> m_mutator md = true -> mutator_ok_b d md = true.
-  (* members outside cd_params do not depend on the construction parameters *)
-  Hypothesis param_members : forall p p' x, mem x (cd_params d) = false -> init p x = init p' x.
+  Hypothesis init_consistent : init_consistent_b d = true.
+
+  Definition agree_excl (c c' : mems) : Prop := forall g, In (RExcluded g) (cd_ctor_effects d) -> c g = c' g.
+
+  Lemma lookup_In : forall A (x : string) (l : list (string * A)) a, lookup x l = Some a -> In (x, a) l.
+  Proof.
+    induction l as [|[y b] r IH]; intros a H; [discriminate|]. cbn in H.
+    destruct (String.eqb x y) eqn:E.
+    - inversion H; subst. apply String.eqb_eq in E. subst. left; reflexivity.
+    - right. apply IH; exact H.
+  Qed.
+
+  (* former PREMISE 5, now a consequence of the decided consistency of the description: a member outside cd_params has the same
+     value after every construction, whatever the parameters and the statics *)
+  Lemma init_nonparam : forall p p' st st' x, mem x (cd_params d) = false -> init p st x = init p' st' x.
+  Proof.
+    intros p p' st st' x Hx. unfold init. destruct (lookup x (cd_init d)) as [[| |]|] eqn:El; try reflexivity.
+    apply lookup_In in El. unfold init_consistent_b in init_consistent. rewrite forallb_forall in init_consistent.
+    specialize (init_consistent _ El). cbn in init_consistent. rewrite Hx in init_consistent. discriminate.
+  Qed.
+
+  (* former PREMISE 3, now by definition of init: a default-initialised member has its default value after construction *)
+  Lemma init_default : forall p st x, default_init_b d x = true -> init p st x = dflt x.
+  Proof. intros p st x H. unfold default_init_b in H. unfold init. destruct (lookup x (cd_init d)) as [[| |]|]; try discriminate; reflexivity. Qed.
+
+  (* the value of a stable member after construction does not depend on the statics at construction time (excluded globals apart) *)
+  Lemma init_ctx : forall p c c' x, ctor_ok_b d x = true -> agree_excl c c' -> init p c x = init p c' x.
+  Proof.
+    intros p c c' x Hk Ha. unfold ctor_ok_b in Hk. apply orb_true_iff in Hk. destruct Hk as [Hk|Hk].
+    - apply negb_true_iff in Hk. apply init_nonparam; exact Hk.
+    - unfold init. destruct (lookup x (cd_init d)) as [[| |]|]; try reflexivity. apply ctor_footprint; assumption.
+  Qed.
 
   Definition Inv (σ : state) : Prop :=
-    forall o p s, objs σ o = Some (p, s) -> forall x, stable_b d x = true -> s x = init p x.
+    forall o p c s, objs σ o = Some ((p, c), s) -> forall x, stable_b d x = true -> s x = init p c x.
 
   Lemma find_method_In : forall n md, find_method d n = Some md -> In md (cd_methods d) /\ m_name md = n.
   Proof.
@@ -149,9 +198,10 @@ Section SelfContained.
   Qed.
 
   Lemma stable_parts : forall x, stable_b d x = true ->
-    copy_ok_b d x = true /\ assign_ok_b d x = true /\ written_b d x = false.
+    copy_ok_b d x = true /\ assign_ok_b d x = true /\ written_b d x = false /\ ctor_ok_b d x = true.
   Proof.
-    unfold stable_b; intros x H. apply andb_true_iff in H. destruct H as [H H3].
+    unfold stable_b; intros x H. apply andb_true_iff in H. destruct H as [H H4].
+    apply andb_true_iff in H. destruct H as [H H3].
     apply andb_true_iff in H. destruct H as [H1 H2]. apply negb_true_iff in H3. auto.
   Qed.
 
@@ -159,49 +209,49 @@ Section SelfContained.
   Proof.
     intros σ e HI. destruct e as [o p | o' o | o' o | o n a | o | o n p' | st]; cbn [step].
     - (* Construct *)
-      intros o1 p1 s1 H x Hx; cbn in H. unfold upd in H. destruct (Nat.eqb o1 o).
+      intros o1 p1 c1 s1 H x Hx; cbn in H. unfold upd in H. destruct (Nat.eqb o1 o).
       + inversion H; subst; reflexivity.
       + eapply HI; eauto.
     - (* Copy *)
-      destruct (objs σ o) as [[p s]|] eqn:Eo; [|exact HI].
+      destruct (objs σ o) as [[[p c] s]|] eqn:Eo; [|exact HI].
       destruct (cd_copy d) as [mp|] eqn:Ec; [|exact HI].
-      intros o1 p1 s1 H x Hx; cbn in H. unfold upd in H. destruct (Nat.eqb o1 o').
+      intros o1 p1 c1 s1 H x Hx; cbn in H. unfold upd in H. destruct (Nat.eqb o1 o').
       + inversion H; subst. destruct (stable_parts x Hx) as [Hc _].
         unfold copy_ok_b in Hc. rewrite Ec in Hc. unfold copy_mem.
         destruct (lookup x mp) as [[y| |y|w|]|] eqn:El; try discriminate.
         * apply String.eqb_eq in Hc. subst y. eapply HI; eauto.
-        * symmetry. eapply default_members; eauto.
+        * symmetry. apply init_default; exact Hc.
       + eapply HI; eauto.
     - (* Assign *)
-      destruct (objs σ o') as [[p' old]|] eqn:Eo'; [|exact HI].
-      destruct (objs σ o) as [[p s]|] eqn:Eo; [|exact HI].
+      destruct (objs σ o') as [[l' old]|] eqn:Eo'; [|exact HI].
+      destruct (objs σ o) as [[[p c] s]|] eqn:Eo; [|exact HI].
       destruct (cd_assign d) as [mp|] eqn:Ea; [|exact HI].
-      intros o1 p1 s1 H x Hx; cbn in H. unfold upd in H. destruct (Nat.eqb o1 o').
+      intros o1 p1 c1 s1 H x Hx; cbn in H. unfold upd in H. destruct (Nat.eqb o1 o').
       + inversion H; subst. destruct (stable_parts x Hx) as [_ [Ha _]].
         unfold assign_ok_b in Ha. rewrite Ea in Ha. unfold assign_mem.
         destruct (lookup x mp) as [[y| |y|w|]|] eqn:El; try discriminate.
         apply String.eqb_eq in Ha. subst y. eapply HI; eauto.
       + eapply HI; eauto.
     - (* Use *)
-      destruct (objs σ o) as [[p s]|] eqn:Eo; [|exact HI].
+      destruct (objs σ o) as [[[p c] s]|] eqn:Eo; [|exact HI].
       destruct (find_method d n) as [md|] eqn:Ef; [|exact HI].
       destruct (m_const md) eqn:Ec; [|exact HI].
       destruct (find_method_In _ _ Ef) as [Hin Hn].
-      intros o1 p1 s1 H x Hx; cbn in H. unfold upd in H. destruct (Nat.eqb o1 o) eqn:E1.
-      + inversion H; subst. destruct (stable_parts x Hx) as [_ [_ Hw]].
+      intros o1 p1 c1 s1 H x Hx; cbn in H. unfold upd in H. destruct (Nat.eqb o1 o) eqn:E1.
+      + inversion H; subst. destruct (stable_parts x Hx) as [_ [_ [Hw _]]].
         rewrite own_footprint; auto. eapply HI; eauto. apply not_written; auto.
       + eapply HI; eauto.
     - (* Destroy *)
-      intros o1 p1 s1 H x Hx; cbn in H. unfold upd in H. destruct (Nat.eqb o1 o); [discriminate|]. eapply HI; eauto.
+      intros o1 p1 c1 s1 H x Hx; cbn in H. unfold upd in H. destruct (Nat.eqb o1 o); [discriminate|]. eapply HI; eauto.
     - (* Mutate *)
-      destruct (objs σ o) as [[p s]|] eqn:Eo; [|exact HI].
+      destruct (objs σ o) as [[[p c] s]|] eqn:Eo; [|exact HI].
       destruct (find_method d n) as [md|] eqn:Ef; [|exact HI].
       destruct (m_mutator md) eqn:Em; [|exact HI].
       destruct (find_method_In _ _ Ef) as [Hin _].
       pose proof (mutators_ok md Hin Em) as Hk.
-      intros o1 p1 s1 H x Hx; cbn in H. unfold upd in H. destruct (Nat.eqb o1 o) eqn:E1; [|eapply HI; eauto].
+      intros o1 p1 c1 s1 H x Hx; cbn in H. unfold upd in H. destruct (Nat.eqb o1 o) eqn:E1; [|eapply HI; eauto].
       inversion H; subst. destruct (mem x (m_writes md)) eqn:Ew; [reflexivity|].
-      rewrite (HI o p s Eo x Hx). apply param_members.
+      rewrite (HI o p c s Eo x Hx). apply init_nonparam.
       unfold mutator_ok_b in Hk. apply andb_true_iff in Hk. destruct Hk as [Hk _].
       destruct (mem x (cd_params d)) eqn:Ep; [|reflexivity].
       rewrite forallb_forall in Hk. unfold mem in Ep. apply existsb_exists in Ep. destruct Ep as [y [Hy Ey]].
@@ -213,20 +263,24 @@ Section SelfContained.
   Lemma reach_inv : forall σ, reach σ -> Inv σ.
   Proof.
     induction 1.
-    - intros o p s H; discriminate.
+    - intros o p c s H; discriminate.
     - apply step_inv; assumption.
   Qed.
 
+  (* the result of a self-contained method is  run n (init p c') st' a : a function of the construction parameters p of the
+     lineage, the operands a, and the documented excluded globals (those the constructors read, at construction time: c' is ANY
+     statics that agree with the construction-time ones on them; those the method reads, now: st') *)
   Definition SelfContained_stmt : Prop :=
     forall σ, reach σ ->
-    forall o p s n md a st',
-      objs σ o = Some (p, s) -> find_method d n = Some md -> method_sc_b d md = true ->
+    forall o p c s n md a c' st',
+      objs σ o = Some ((p, c), s) -> find_method d n = Some md -> method_sc_b d md = true ->
+      agree_excl c c' ->
       (forall g, In (RExcluded g) (m_effects md) -> stat σ g = st' g) ->
-      snd (step σ (Use o n a)) = Some (run n (init p) st' a).
+      snd (step σ (Use o n a)) = Some (run n (init p c') st' a).
 
   Lemma self_contained : SelfContained_stmt.
   Proof.
-    intros σ Hr o p s n md a st' Ho Hf Hok Hex.
+    intros σ Hr o p c s n md a c' st' Ho Hf Hok Hag Hex.
     cbn [step]. rewrite Ho, Hf.
     unfold method_sc_b in Hok.
     apply andb_true_iff in Hok; destruct Hok as [Hok Hsh].
@@ -235,24 +289,48 @@ Section SelfContained.
     rewrite Hc. cbn [snd]. f_equal.
     destruct (find_method_In _ _ Hf) as [Hin Hn]. subst n.
     apply run_footprint; auto.
-    intros x Hx. eapply (reach_inv σ Hr); eauto.
-    rewrite forallb_forall in Hst. apply Hst; exact Hx.
+    intros x Hx. rewrite forallb_forall in Hst. pose proof (Hst x Hx) as Hsx.
+    rewrite (reach_inv σ Hr o p c s Ho x Hsx).
+    destruct (stable_parts x Hsx) as [_ [_ [_ Hk]]]. apply init_ctx; assumption.
   Qed.
 
-  (* the same, read as "independent of the history": two arbitrary histories, two objects of the same lineage *)
+  (* the same, read as "independent of the history": two arbitrary histories, two objects of the same construction parameters *)
   Definition HistoryIndependent_stmt : Prop :=
     forall σ1 σ2, reach σ1 -> reach σ2 ->
-    forall o1 o2 p s1 s2 n md a,
-      objs σ1 o1 = Some (p, s1) -> objs σ2 o2 = Some (p, s2) ->
+    forall o1 o2 p c1 c2 s1 s2 n md a,
+      objs σ1 o1 = Some ((p, c1), s1) -> objs σ2 o2 = Some ((p, c2), s2) ->
       find_method d n = Some md -> method_sc_b d md = true ->
+      agree_excl c1 c2 ->
       (forall g, In (RExcluded g) (m_effects md) -> stat σ1 g = stat σ2 g) ->
       snd (step σ1 (Use o1 n a)) = snd (step σ2 (Use o2 n a)).
   Lemma history_independent : HistoryIndependent_stmt.
   Proof.
-    intros σ1 σ2 H1 H2 o1 o2 p s1 s2 n md a Ho1 Ho2 Hf Hok Hex.
-    rewrite (self_contained σ1 H1 o1 p s1 n md a (stat σ2) Ho1 Hf Hok Hex).
-    rewrite (self_contained σ2 H2 o2 p s2 n md a (stat σ2) Ho2 Hf Hok (fun _ _ => eq_refl)).
+    intros σ1 σ2 H1 H2 o1 o2 p c1 c2 s1 s2 n md a Ho1 Ho2 Hf Hok Hag Hex.
+    rewrite (self_contained σ1 H1 o1 p c1 s1 n md a c2 (stat σ2) Ho1 Hf Hok Hag Hex).
+    rewrite (self_contained σ2 H2 o2 p c2 s2 n md a c2 (stat σ2) Ho2 Hf Hok (fun _ _ => eq_refl) (fun _ _ => eq_refl)).
     reflexivity.
   Qed.
 
+  (* "construction parameters determine every member": right after ANY construction, in ANY state of the process, every stable
+     member has the value the parameters give it (whatever the statics hold, excluded globals apart) *)
+  Definition ConstructionDetermined_stmt : Prop :=
+    forall σ o p c' x, stable_b d x = true -> agree_excl (stat σ) c' ->
+      exists s, objs (fst (step σ (Construct o p))) o = Some ((p, stat σ), s) /\ s x = init p c' x.
+  Lemma construction_determined : ConstructionDetermined_stmt.
+  Proof.
+    intros σ o p c' x Hx Ha. exists (init p (stat σ)). cbn. rewrite upd_same. split; [reflexivity|].
+    destruct (stable_parts x Hx) as [_ [_ [_ Hk]]]. apply init_ctx; assumption.
+  Qed.
+
 End SelfContained.
+
+(* the decided premise about mutators, from the offender list of the description *)
+Lemma mutator_offenders_nil : forall d, mutator_offenders d = [] ->
+  forall md, In md (cd_methods d) -> m_mutator md = true -> mutator_ok_b d md = true.
+Proof.
+  intros d H md Hin Hm. unfold mutator_offenders in H.
+  destruct (mutator_ok_b d md) eqn:E; [reflexivity|].
+  assert (In md (filter (fun m => m_mutator m && negb (mutator_ok_b d m)) (cd_methods d))) as K.
+  { apply filter_In. split; [exact Hin|]. rewrite Hm, E. reflexivity. }
+  destruct (filter _ (cd_methods d)); [destruct K|discriminate].
+Qed.
